@@ -4,7 +4,8 @@
 //! policy, name and quantity, the fee, the validity interval and phase-2 flag, the mint, the collateral and reference inputs, and for
 //! every output datum its hash (and the on-chain bytes of an inline datum). Integers are read back exactly from the schema's BigInt. Plus 19
 //! generated Babbage outputs per version whose inline datum is given as raw CBOR — integers across the CBOR range (also non-minimal heads and
-//! bignums), byte strings written definite and indefinite, lists / maps / constructors in both forms: the datum hash is the hash of those bytes.
+//! bignums), byte strings written definite and indefinite, lists / maps / constructors in both forms: the datum hash is the hash of those bytes. Plus 40 generated
+//! outputs per version (Alonzo / Babbage / Conway, array and map form) with one asset of quantity 1 .. 2^64-1: the mapped quantity is the quantity.
 //! Exit 1 with the first failing fixture / transaction / field if not.
 use pallas_traverse::{MultiEraBlock, MultiEraOutput, MultiEraTx, OriginalHash};
 use pallas_primitives::conway::DatumOption;
@@ -129,6 +130,35 @@ macro_rules! datum_version {
         }
     };
 }
+/// generated outputs carrying one asset whose quantity sits at the edges of the signed / unsigned 64-bit ranges, in the array and the map form of
+/// every era that has them: the mapped quantity is the quantity
+macro_rules! asset_version {
+    ($fname:ident, $vm:ident, $label:expr, $qty:expr) => {
+        fn $fname(n: &mut u64) {
+            use pallas_utxorpc::$vm::{spec::cardano as u5c, Mapper};
+            use pallas_traverse::Era;
+            let mapper = Mapper::new(NoLedger);
+            let big = |b: &Option<u5c::BigInt>| -> Option<i128> { match b.as_ref().and_then(|x| x.big_int.as_ref()) {
+                Some(u5c::big_int::BigInt::Int(i)) => Some(*i as i128), Some(u5c::big_int::BigInt::BigUInt(b)) => Some(be(b)), Some(u5c::big_int::BigInt::BigNInt(b)) => Some(-1 - be(b)), None => None } };
+            let addr = [0x61u8].iter().copied().chain(std::iter::repeat(0x5a).take(28)).collect::<Vec<u8>>();
+            for q in [1u64, 23, 24, u32::MAX as u64, (1u64 << 63) - 1, 1u64 << 63, u64::MAX - 1, u64::MAX] {
+                let mut value = vec![0x82, 0x1a, 0x00, 0x1e, 0x84, 0x80, 0xa1, 0x58, 0x1c]; value.extend_from_slice(&[0xaa; 28]);
+                value.extend_from_slice(&[0xa1, 0x44, b't', b'e', b's', b't', 0x1b]); value.extend_from_slice(&q.to_be_bytes());
+                let mut legacy = vec![0x82, 0x58, addr.len() as u8]; legacy.extend_from_slice(&addr); legacy.extend_from_slice(&value);
+                let mut post = vec![0xa2, 0x00, 0x58, addr.len() as u8]; post.extend_from_slice(&addr); post.push(0x01); post.extend_from_slice(&value);
+                for (era, bytes, form) in [(Era::Alonzo, &legacy, "array"), (Era::Babbage, &legacy, "array"), (Era::Babbage, &post, "map"), (Era::Conway, &legacy, "array"), (Era::Conway, &post, "map")] {
+                    let o = MultiEraOutput::decode(era, bytes).unwrap_or_else(|e| fail(format!("{} generated {era:?} output ({form} form) with asset quantity {q} does not decode: {e}", $label)));
+                    let mo: u5c::TxOutput = mapper.map_tx_output(&o, None);
+                    let got: Vec<Option<i128>> = mo.assets.iter().flat_map(|ma| ma.assets.iter().map(|a| big(&($qty)(a))).collect::<Vec<_>>()).collect();
+                    if got != vec![Some(q as i128)] { fail(format!("{} {era:?} output ({form} form) with one asset of quantity {q}: mapped quantities {got:?}", $label)); }
+                    *n += 1;
+                }
+            }
+        }
+    };
+}
+asset_version!(assets_v1beta, v1beta, "v1beta", |a: &u5c::Asset| a.quantity.clone());
+asset_version!(assets_v1alpha, v1alpha, "v1alpha", |a: &u5c::Asset| match &a.quantity { Some(u5c::asset::Quantity::OutputCoin(b)) | Some(u5c::asset::Quantity::MintCoin(b)) => Some(b.clone()), None => None });
 datum_version!(datums_v1beta, v1beta, "v1beta", |d: &u5c::Datum| d.original_cbor.as_ref().map(|b| b.to_vec()),
     |d: &u5c::Datum| match d.payload.as_ref().and_then(|p| p.plutus_data.as_ref()) { Some(u5c::plutus_data::PlutusData::BigInt(b)) => match b.big_int.as_ref() { Some(u5c::big_int::BigInt::Int(i)) => Some(*i as i128), Some(u5c::big_int::BigInt::BigUInt(x)) => Some(be(x)), Some(u5c::big_int::BigInt::BigNInt(x)) => Some(-1 - be(x)), None => None }, _ => None });
 datum_version!(datums_v1alpha, v1alpha, "v1alpha", |d: &u5c::Datum| Some(d.original_cbor.to_vec()),
@@ -150,6 +180,7 @@ fn main() {
         blocks += 1;
     }
     datums_v1beta(&mut n); datums_v1alpha(&mut n);
+    assets_v1beta(&mut n); assets_v1alpha(&mut n);
     if blocks < 10 { fail(format!("only {blocks} block fixtures decoded: the harness is not exercising the mappers")); }
     println!("checked {n} mapped transactions in {blocks} blocks, both schema versions, and generated outputs with canonical and non-canonical inline datums");
 }
